@@ -296,7 +296,6 @@ theorem Ty.mis (base : Nat) : ∀ (t : Ty), t.wf = true → ∀ v, t.wt v = true
       simp only [Ty.wf, Bool.and_eq_true] at hw
       by_cases hz : mt.zero = true
       · simp only [hz, if_true, Bool.and_eq_true, Bool.not_eq_true'] at hw
-        have hne : mt.isEnum = false := hw.1.2.1
         cases v with
         | record fs =>
           constructor <;> intro pos rest ha <;> rw [Ty.blocks_adt_zero mt vs fs pos hz] at ha
@@ -304,7 +303,12 @@ theorem Ty.mis (base : Nat) : ∀ (t : Ty), t.wf = true → ∀ v, t.wt v = true
             exact zero_misF base (.adt mt vs) _ pos rest (not_all_single ha)
           · rw [Ty.enc_adt_zero mt vs fs pos hz, Ty.decEps_adt_zero base mt vs _ pos hz]
             exact zero_misE base (.adt mt vs) _ pos rest (not_all_single ha)
-        | variant i fs => simp [Ty.wt, hne] at hwt
+        | variant i fs =>
+          constructor <;> intro pos rest ha <;> rw [Ty.blocks_adt_zero_variant mt vs i fs pos hz] at ha
+          · rw [Ty.enc_adt_zero_variant mt vs i fs pos hz, Ty.decFull_adt_zero _ mt vs _ pos hz]
+            exact zero_misF base (.adt mt vs) _ pos rest (not_all_single ha)
+          · rw [Ty.enc_adt_zero_variant mt vs i fs pos hz, Ty.decEps_adt_zero base mt vs _ pos hz]
+            exact zero_misE base (.adt mt vs) _ pos rest (not_all_single ha)
         | _ => simp [Ty.wt] at hwt
       · simp only [hz, if_false, Bool.false_eq_true] at hw
         have hzf : mt.zero = false := by simpa using hz
